@@ -186,6 +186,30 @@ def judge_private_tokens(ctx, acceptance_only):
                     what = 'private-token-docs-acceptance' if acceptance_only else 'private-token-docs-value'
                 v.append({'what': what, 'cfg': cfg, 'input': hx(d), 'src': src, 'expected': 'as an ordinary JSON object (model / RFC 8259): ' + m, 'actual': a, 'shrinkable': False})
     ctx.count('private-token documents', len(docs))
+    # the token-aware model (Model/DeTok.v, proved conservative over Model/De.v on token-free texts: C02_detok_conservative): in EVERY configuration the real
+    # crate must do exactly what it predicts on token documents (nested, escaped spellings of the key, bad payloads, members before / after, truncations)
+    import detok_gen as G
+    tdocs = [d for _, d in G.gen_docs(ctx.rng, 600 if ctx.tier == 'quick' else 6000)]
+    for cfg in list(ctx.cfgs) + list(getattr(ctx, 'side_cfgs', [])):
+        feats = engine.CONFIGS[cfg][0]
+        if 'arbitrary_precision' in feats and 'raw_value' in feats:
+            continue
+        L = ctx.letters(cfg)
+        rawf = 'r' if 'raw_value' in feats else '-'
+        for src in ('b', 'r1'):
+            io = ctx.impl(cfg, ['pv %s %s %s' % (L, src, hx(d)) for d in tdocs])
+            mo = ctx.model(['pv %s %s %s %s' % (L.replace('u', '') or '-', rawf, src, hx(d)) for d in tdocs], name='sjdriver_detok')
+            for d, a, m in zip(tdocs, io, mo):
+                if m == 'NOMODEL':
+                    continue
+                if acceptance_only and is_ok(a) == is_ok(m):
+                    ctx.distinct_nontrivial += 1
+                elif a == m:
+                    ctx.distinct_nontrivial += 1
+                else:
+                    v.append({'what': 'private-token-behaviour-differs-from-token-model', 'cfg': cfg, 'input': hx(d), 'src': src,
+                              'expected': 'Model/DeTok.v: ' + m[:300], 'actual': a[:300], 'shrinkable': False})
+    ctx.count('private-token documents vs token model', len(tdocs))
     return v
 
 def judge_depth(ctx, cfg, aux=None):
